@@ -34,6 +34,7 @@ class Slice:
     env: Dict[str, str] = field(default_factory=dict)
     env_of: Optional[Callable[[Dict[str, Any]], Dict[str, str]]] = None   # per-vector process environment
     prepare: Optional[Callable[[str, int], Dict[str, str]]] = None        # (tier, seed) -> extra environment for TLC
+    tiers: Tuple[str, ...] = ("quick", "thorough")                         # tiers in which the slice is explored
 
 
 @dataclass
@@ -144,6 +145,72 @@ def default_key(v: Dict[str, Any]) -> str:
     return "%s|%s|%s|%s%s" % (v.get("kind"), e.get("sat", e.get("kind")), reasons, kinds, extra)
 
 
+class StreamSampler:
+    """Consumes the vectors TLC prints, one at a time.  Everything is kept while the printed text stays under
+    `text_limit` (then the selection is exactly `stratified`); beyond it the sampler keeps a bounded reservoir per
+    stratum, so that a thorough exploration with millions of vectors does not have to fit in memory."""
+
+    def __init__(self, cap: int, seed: int, select=None, text_limit: int = 400 << 20):
+        self.cap, self.seed, self.select = cap, seed, select
+        self.text_limit = text_limit
+        self.header: Optional[Dict[str, Any]] = None
+        self.total = 0
+        self.text = 0
+        self.all: Optional[List[Dict[str, Any]]] = []
+        self.res: Dict[str, List[Dict[str, Any]]] = {}
+        self.seen: Dict[str, int] = {}
+        self.kept = 0
+        self.R = max(24, cap)              # per-stratum reservoir; halved whenever the reservoirs outgrow text_limit
+        self.rng = random.Random(seed)
+
+    def __call__(self, v: Dict[str, Any], nbytes: int) -> None:
+        if v.get("kind") == "header":
+            self.header = v
+            return
+        if self.select and not self.select(v):
+            return
+        self.total += 1
+        self.text += nbytes
+        if self.all is not None:
+            self.all.append(v)
+            if self.cap > 0 and self.text > self.text_limit:
+                vs, self.all = self.all, None
+                for w in vs:
+                    self._reservoir(w)
+            return
+        self._reservoir(v)
+
+    def _reservoir(self, v: Dict[str, Any]) -> None:
+        k = default_key(v)
+        n = self.seen.get(k, 0) + 1
+        self.seen[k] = n
+        lst = self.res.setdefault(k, [])
+        if len(lst) < self.R:
+            lst.append(v)
+            self.kept += 1
+        else:
+            j = self.rng.randrange(n)
+            if j < self.R:
+                lst[j] = v
+        if self.kept * (self.text // max(1, self.total)) > self.text_limit and self.R > 1:
+            self.R = max(1, self.R // 2)
+            self.kept = 0
+            for key in self.res:
+                l2 = self.res[key]
+                if len(l2) > self.R:
+                    self.rng.shuffle(l2)
+                    del l2[self.R:]
+                self.kept += len(l2)
+
+    def chosen(self) -> List[Dict[str, Any]]:
+        if self.all is not None:
+            return stratified(self.all, self.cap, self.seed, default_key)
+        pool_: List[Dict[str, Any]] = []
+        for k in sorted(self.res):
+            pool_.extend(self.res[k])
+        return stratified(pool_, self.cap, self.seed, default_key)
+
+
 def write_replay(prop_id: str, payload: Dict[str, Any]) -> str:
     REPLAYS.mkdir(exist_ok=True)
     blob = json.dumps(payload, sort_keys=True)
@@ -163,9 +230,12 @@ def model_check(run: Run, sl: Slice, workers: int):
         extra = sl.prepare(tier, run.seed)
         tmpfiles = [v for k, v in extra.items() if k.endswith("_FILE") or k.startswith("VF_")]
         env.update(extra)
+    sampler = StreamSampler(sl.cap.get(tier, 0), run.seed, sl.select)
     try:
-        return tlc.run_tlc(sl.module, cfg, workers=workers, simulate=sim, depth=sl.depth,
-                           seed=run.seed if sim else None, env=env)
+        res = tlc.run_tlc(sl.module, cfg, workers=workers, simulate=sim, depth=sl.depth,
+                          seed=run.seed if sim else None, env=env, sink=sampler)
+        res.sampler = sampler
+        return res
     finally:
         for f in tmpfiles:
             try:
@@ -183,19 +253,13 @@ def run_slice(run: Run, sl: Slice, res) -> None:
             % (res.invariant_violated, sl.module, "\n".join(res.error_trace[:60])))
     run.states += res.distinct_states
     run.transitions += res.states_generated
-    header = None
-    vecs = []
-    for v in res.vectors:
-        if v.get("kind") == "header":
-            header = v
-        else:
-            vecs.append(v)
-    if sl.select:
-        vecs = [v for v in vecs if sl.select(v)]
-    run.vectors += len(vecs)
-    cap = sl.cap.get(tier, 0)
-    chosen = stratified(vecs, cap, run.seed, default_key)
-    if len(chosen) < len(vecs) or sim:
+    sampler = res.sampler
+    header = sampler.header
+    nvecs = sampler.total
+    run.vectors += nvecs
+    chosen = sampler.chosen()
+    sampler.all, sampler.res = None, {}
+    if len(chosen) < nvecs or sim:
         run.exhaustive = False
     t1 = time.time()
     if sl.env_of is None:
@@ -239,7 +303,7 @@ def run_slice(run: Run, sl: Slice, res) -> None:
     if len(run.samples) < 3 and chosen:
         run.samples.append({"slice": sl.name, "vector": chosen[len(chosen) // 2]})
     run.slices.append({"slice": sl.name, "module": sl.module, "states": res.distinct_states,
-                       "vectors": len(vecs), "replayed": len(chosen), "tlc_s": round(res.wall_s, 1),
+                       "vectors": nvecs, "replayed": len(chosen), "tlc_s": round(res.wall_s, 1),
                        "replay_s": round(time.time() - t1, 1), "mode": "simulate" if sim else "exhaustive"})
 
 
@@ -280,11 +344,12 @@ def execute(prop: Prop, tier: str, seed: int) -> int:
         # phase 1: TLC on every slice (concurrently); phase 2: replay into the implementation
         from concurrent.futures import ThreadPoolExecutor
 
-        n = max(1, len(prop.slices))
+        slices_ = [sl for sl in prop.slices if tier in sl.tiers]
+        n = max(1, len(slices_))
         w = max(2, 16 // min(n, 4))
         with ThreadPoolExecutor(max_workers=min(n, 4)) as ex:
-            results = list(ex.map(lambda sl: model_check(run, sl, w), prop.slices))
-        for sl, res in zip(prop.slices, results):
+            results = list(ex.map(lambda sl: model_check(run, sl, w), slices_))
+        for sl, res in zip(slices_, results):
             run_slice(run, sl, res)
         if prop.extra:
             prop.extra(run)
